@@ -216,6 +216,14 @@ func main() {
 		drv.RunProtoPlans(*specFile, *part, *steps, t, 0)
 		t.Close()
 		fmt.Printf("events=%d\n", t.N)
+	case "exhaust":
+		t, err := drv.NewTrace(*out)
+		if err != nil {
+			panic(err)
+		}
+		drv.RunExhaust(*seed, t, 0)
+		t.Close()
+		fmt.Printf("events=%d\n", t.N)
 	case "bmap":
 		t, err := drv.NewTrace(*out)
 		if err != nil {
